@@ -7,7 +7,7 @@ import iglib
 from gen import macgen
 from props.c12 import workdir
 
-THEOREMS = ["IgVerif.C08.c08_literal_opaque", "IgVerif.C08.c08_literal_body", "IgVerif.C08.c08_stringify_param", "IgVerif.C08.c08_identity_param", "IgVerif.C08.c08_paste_params", "IgVerif.Exp.save_literal", "IgVerif.Exp.takeLit_clean",
+THEOREMS = ["IgVerif.C08.c08_literal_opaque", "IgVerif.C08.c08_literal_body", "IgVerif.C08.c08_stringify_param", "IgVerif.C08.c08_identity_param", "IgVerif.C08.c08_param_substitution", "IgVerif.C08.c08_hash_any_param", "IgVerif.C08.c08_paste_params", "IgVerif.Exp.save_literal", "IgVerif.Exp.takeLit_clean",
             "IgVerif.C08.c08_stringify_roundtrip", "IgVerif.C08.c08_stringify_delimited", "IgVerif.C08.go_reads_back", "IgVerif.C08.step_reads_back"]
 PARTIAL = [("c08_conforms (tokens of interrogate's expansion = tokens of a conforming preprocessor, for every macro program)",
             "theorems cover the # operator (round trip of stringify) and one level of expansion (Model/Expand.lean = save_expansion + r_expand: literals are opaque, "
@@ -55,6 +55,8 @@ def run(ck):
     ck.lean_obligations("IgVerif.Props.C08", THEOREMS, PARTIAL)
     ck.trusted += ["gcc 12 -E -P -std=gnu2x as the conforming preprocessor", "tools/gen/macgen.py (programs gcc rejects are dropped and counted; tokens are compared after "
                    "re-lexing both outputs with one tokenizer; numbers are kept in canonical spelling because parse_file -E prints them by value)"]
+    ck.trusted += ["Model/Macro.lean and Model/Expand.lean are hand-written models of CPPManifest::stringify / save_expansion / r_expand (without __VA_OPT__ and rescans), tied to the code "
+                   "by the #-argument stream and the single-macro stream only"]
     bdir = iglib.build_repo("std")
     wd = workdir(ck)
     ck.rule = ("macro programs from a feature grammar — object-like with self and mutual reference, function-like with nested / multi-line / empty / "
@@ -127,13 +129,13 @@ def run(ck):
                 elif r < 0.8 and variadic:
                     body += rng.choice([["__VA_ARGS__"], ["#", "__VA_ARGS__"], [",", "##", "__VA_ARGS__"]])
                 else:
-                    body.append(rng.choice(IDS2 + ["+", "*", "(", ")", ",", "42", "=="]))
+                    body.append(rng.choice(IDS2 + ["+", "-", "&", "<", "*", "(", ")", ",", "42", "=="]))
             if body.count("(") != body.count(")"):
                 body = [t for t in body if t not in "()"]
             if not body:
                 body = ["alpha"]
             nargs = nparam + (rng.choice([0, 1, 2]) if variadic else 0)
-            args = [" ".join(rng.choice(IDS2 + ["7", '"q"', "'z'", '"a,b"', "+"]) for _ in range(rng.choice([1, 1, 2, 0]))) for _ in range(nargs)]
+            args = [" ".join(rng.choice(IDS2 + ["7", '"q"', "'z'", '"a,b"', "+", "-", "&", "- 1", "+ 2", "L','", "u8')'", "U'('", "','", "::y2"]) for _ in range(rng.choice([1, 1, 2, 0]))) for _ in range(nargs)]
             if nparam == 0 and not variadic:
                 args = []
             name = "X%d" % i
@@ -150,14 +152,20 @@ def run(ck):
         res = run_pair(bdir, wd, text)
         if res is not None and res[0] == "ok":
             _, gout, rout, rerr = res
+            def unprefix(text):
+                return re.sub(r"\b(?:u8|u|U|L)(?=['\"])", "", text)
+
             def stmts(out):
-                return dict((int(m.group(1)), macgen.tokenize(m.group(2))) for m in re.finditer(r"\br(\d+) ?= ?(.*?);", out.replace("\n", " ")))
+                out = unprefix(out)
+                # (parse_file -E prints a character or string literal without its encoding prefix: L',' as ',')
+                return dict((int(m.group(1)), [re.sub(r"^(?:u8|u|U|L)(?=['\"])", "", t) for t in macgen.tokenize(m.group(2))])
+                            for m in re.finditer(r"\br(\d+) ?= ?(.*?);", out.replace("\n", " ")))
             gs, rs = stmts(gout), stmts(rout)
             ops = ["expand %s %s %s %s" % (",".join(p.encode().hex() for p in params) or "-", len(params) if variadic else "-", btext.encode().hex(),
                                           " ".join(a.encode().hex() or "-" for a in args)) for _, params, variadic, btext, args in cases]
             model = iglib.run_driver("macro", ops, timeout=600)
             for (i, params, variadic, btext, args), m in zip(cases, model):
-                mt = macgen.tokenize(bytes.fromhex(m).decode("latin-1")) if m != "-" else []
+                mt = macgen.tokenize(unprefix(bytes.fromhex(m).decode("latin-1"))) if m != "-" else []
                 shown = "#define X(%s) %s  with X(%s)" % (", ".join(params + (["..."] if variadic else [])), btext, ", ".join(args))
                 feats = [f for f, t in (("stringify", "#"), ("paste", "##"), ("variadic", "__VA_ARGS__")) if t in btext.split()] + (["literal"] if '"' in btext or "'" in btext else [])
                 if any(odd_number(t) for t in gs.get(i, [])):
